@@ -26,11 +26,31 @@ def v1 (t : Th) : Queue.Thread :=
   | .l1 => t.a
   | .l2 => if t.x = .deq ∨ t.x = .up then t.a else inertT
 
-/-- the thread's slot in the OUTPUT queue -/
+/-- the last `get_batch()` of this consumer part ended with `StopIteration` -/
+def seenQ (a : Queue.Thread) : Bool :=
+  match a.outcome with
+  | some (.stop _) => true
+  | _ => false
+
+/-- `next(DequeueIterator(Q1))` raised `StopIteration` -/
+def isStopH : Hand → Prop
+  | .stop _ => True
+  | _ => False
+
+/-- the task's last `Q1.get_batch()` ended with `StopIteration`: it has seen the end of the input queue -/
+def stopSeen (t : Th) : Bool := seenQ t.a
+
+/-- the thread's slot in the OUTPUT queue.  A second-level task that has seen the end of the input queue runs
+`Q2._stop_enqueue(*args)`: a generator `iterator_fn` passes its own return value, a pass-through `iterator_fn` forwards
+the arguments of the input queue's `StopIteration`, which can be EMPTY after an upstream stop.  `Queue.Live` recognises
+a producer that has run `_stop_enqueue` by its non-empty arguments (ghost `Queue.stopped`), so the view shows such a
+task with the arguments `[0]`: they only flow into the ghost-free list `returned`, which `Live` does not read
+(`stepThread_rets`, `live_returned`). -/
 def v2 (t : Th) : Queue.Thread :=
   match t.role with
   | .l1 => inertT
-  | _ => t.b
+  | .cons => t.b
+  | .l2 => if t.x = .idle ∧ stopSeen t = true then { t.b with rets := [0] } else t.b
 
 def q1cfg (c : Cfg) : Queue.Cfg := { sh := c.s1, ths := c.ths.map v1 }
 def q2cfg (c : Cfg) : Queue.Cfg := { sh := c.s2, ths := c.ths.map v2 }
@@ -56,10 +76,13 @@ def TI (t : Th) : Prop :=
   | .l2 =>
     t.b.prog.kind = .producer ∧
     (match t.x with
-    | .idle => t.b.pc ≠ .eNext ∧ t.a.result = []
-    | .lockAcq | .lockRel => t.b.pc = .eNext ∧ t.a.result = []
-    | .deq => t.b.pc = .eNext ∧ t.a.prog.kind = .batch ∧ t.a.pc ≠ .start ∧ t.a.pc ≠ .done
-    | .up => t.b.pc = .done ∧ t.a.prog.kind = .stopper ∧ t.a.pc ≠ .start ∧ t.a.pc ≠ .done)
+    | .idle => t.b.pc ≠ .eNext ∧ t.a.result = [] ∧
+        (stopSeen t = true → (tRegion t.b.pc = true ∨ t.b.pc = .done) ∧ t.b.reraise = none)
+    | .lockAcq => t.b.pc = .eNext ∧ t.a.result = [] ∧ stopSeen t = false
+    | .lockRel => t.b.pc = .eNext ∧ t.a.result = [] ∧
+        (stopSeen t = true ↔ isStopH t.hand)
+    | .deq => t.b.pc = .eNext ∧ t.a.prog.kind = .batch ∧ t.a.pc ≠ .start ∧ t.a.pc ≠ .done ∧ stopSeen t = false
+    | .up => t.b.pc = .done ∧ t.a.prog.kind = .stopper ∧ t.a.pc ≠ .start ∧ t.a.pc ≠ .done ∧ stopSeen t = false)
 
 /-- the thread holds `lock1` -/
 def HoldsI (t : Th) : Prop := t.role = .l2 ∧ (t.x = .deq ∨ t.x = .lockRel)
@@ -71,7 +94,7 @@ is on its way out through a clean `_stop_enqueue`, or it has finished: then enqu
 was exhausted, or the task stopped it: `_maybe_stop_upstream`, fix 091db8d) -/
 def Owes (t : Th) : Prop :=
   t.role = .l2 ∧
-  ((t.x = .lockRel ∧ (match t.hand with | .stop _ => True | _ => False)) ∨
+  ((t.x = .lockRel ∧ isStopH t.hand) ∨
    (t.x = .idle ∧ tRegion t.b.pc = true ∧ t.b.reraise = none) ∨
    (t.x = .idle ∧ t.b.pc = .done))
 
@@ -91,10 +114,6 @@ structure Inv (c : Cfg) : Prop where
   ig1 : c.s1.ignoreError = false
   to2 : c.s2.timeout = false
   ig2 : c.s2.ignoreError = false
-  /-- `iterator_fn` is a generator (it ends with its own return value).  For a pass-through `iterator_fn` (`fwd`) the
-  ghost classification `Queue.stopped` (= `_stop_enqueue`'s arguments are non-empty) is wrong when the input queue
-  ends with `StopIteration()` after an upstream stop, so `Queue.Live`'s counting invariant does not transfer. -/
-  gen : c.fwd = false
 
 structure Good (c : Cfg) : Prop where
   inv : Inv c
@@ -126,7 +145,7 @@ theorem good_mk {c : Cfg} {tid : Tid} {t t' : Th} {s1' s2' : Shared} {il : Optio
     Good { c with s1 := s1', s2 := s2', ths := c.ths.set tid t', ilock := il, cache := ca, nsub := ns } := by
   have hi := hg.inv
   have htid : tid < c.ths.length := (List.getElem?_eq_some_iff.mp ht).1
-  refine ⟨⟨?_, ?_, ?_, ?_, ?_, ?_, ?_, hc1.1, hc1.2, hc2.1, hc2.2, hi.gen⟩, ?_, ?_⟩
+  refine ⟨⟨?_, ?_, ?_, ?_, ?_, ?_, ?_, hc1.1, hc1.2, hc2.1, hc2.2⟩, ?_, ?_⟩
   · intro u hu
     rcases List.mem_or_eq_of_mem_set hu with hu | rfl
     · exact hi.ti u hu
@@ -209,17 +228,17 @@ theorem q2cfg_init (cap1 cap2 bm1 bm2 mw : Nat) (ns : Option Nat) (fwd : Bool) (
     q2cfg (init cap1 cap2 bm1 bm2 mw ns fwd inputs gens) =
       Queue.init cap2 gens.length false false
         (.batchLoop bm2 false :: ((inputs.map fun _ => Prog.stopper none) ++ gens.map fun r => Prog.producer [] r)) := by
-  simp [q2cfg, init, Queue.init, mkCons, mkL1, mkL2, v2, inertT, Function.comp_def]
+  simp [q2cfg, init, Queue.init, mkCons, mkL1, mkL2, v2, inertT, stopSeen, seenQ, Function.comp_def]
 
-theorem good_init (cap1 cap2 bm1 bm2 mw : Nat) (ns : Option Nat) (inputs : List InSpec) (gens : List Nat) :
-    Good (init cap1 cap2 bm1 bm2 mw ns false inputs gens) := by
-  refine ⟨⟨?_, ?_, ?_, ?_, ?_, ?_, ?_, rfl, rfl, rfl, rfl, rfl⟩, ?_, ?_⟩
+theorem good_init (cap1 cap2 bm1 bm2 mw : Nat) (ns : Option Nat) (fwd : Bool) (inputs : List InSpec) (gens : List Nat) :
+    Good (init cap1 cap2 bm1 bm2 mw ns fwd inputs gens) := by
+  refine ⟨⟨?_, ?_, ?_, ?_, ?_, ?_, ?_, rfl, rfl, rfl, rfl⟩, ?_, ?_⟩
   · intro t ht
     simp only [init, List.mem_cons, List.mem_append, List.mem_map] at ht
     rcases ht with rfl | ⟨i, _, rfl⟩ | ⟨g, _, rfl⟩
     · simp [TI, mkCons, Prog.kind]
     · simp [TI, mkL1, Prog.kind]
-    · simp [TI, mkL2, Prog.kind]
+    · simp [TI, mkL2, Prog.kind, stopSeen, seenQ]
   · intro t ht ho
     exfalso
     simp only [init, List.mem_cons, List.mem_append, List.mem_map] at ht
